@@ -188,3 +188,28 @@ func VH_C13_selfvar(kind int) {
 	vhCanary(env, in)
 	vreach("end")
 }
+
+
+// VH_C13_fact_expiring: like VH_C13_fact, the fact also carries a valid expiry (the
+// expiry code visits the other reserved keys).
+func VH_C13_fact_expiring(kind, key, vk, enc int) {
+	env, in := vhC13Env(kind)
+	fact := Map{vhReserved[key]: vhKindValue("v", vk), "a": "b"}
+	if enc == 0 {
+		fact["ttl"] = "1h"
+	} else {
+		fact["expires"] = float64(vhNow/1000000000 + 3600)
+	}
+	p := vhTry(func() {
+		id, err := env.loc.AddFact(env.ctx, "x", fact)
+		if err == nil {
+			env.loc.GetFact(env.ctx, id)
+			env.loc.SearchFacts(env.ctx, Map{"a": "?q"}, true)
+			env.loc.ProcessEvent(env.ctx, Map{"a": "b"})
+			env.loc.RemFact(env.ctx, id)
+		}
+	})
+	vassert(!p, "no-panic")
+	vhCanary(env, in)
+	vreach("end")
+}
